@@ -1,7 +1,40 @@
-(* Props/C18.v — property C18: theorems only (see Props/C01.v for the conventions). The statement of
-   this property is decided by the monitor on real traces; what is proved here is only what is listed. *)
+(* Props/C18.v — property C18: theorems only (see Props/C01.v for the conventions). The first clause of the property
+   (every Status() snapshot is self-consistent: IsLeader exactly when State is LEADER, a leader shows its own id, State
+   is a documented value) is proved from the table of status writers regenerated from the source on every run
+   (gen/GenStatus.v, machine in Status.v); the rest of the statement (token, revision, convergence of a follower's
+   LeaderID, gauge, transition chain) is decided by the monitor on real traces. *)
 From LE Require Import Base Ev World Mon Mon2 Proto Consts GenGuards SimBasics SimOwn SimCallbacks SimTheorems GuardFacts Timing Witness.
+From LE Require Import Locks Status GenStatus StatusInv StatusNow.
 Open Scope Z_scope.
+
+(* Whatever groups of status stores of the current source run, in whatever order and number - they are serialised by
+   kvElection.mu, which every one of them holds exclusively (part of the table check) - the three fields satisfy
+   "isLeader = (state = LEADER), a leader's leaderID is its own id, state is a documented value" between any two of them.
+   [senabled]: a group behind `if e.isLeader.Load() { return }` inside the same exclusive section runs only when the
+   instance does not lead. PARTIAL with respect to the property: token and revision are not in the machine. *)
+Theorem C18_partial_status_fields_consistent_whenever_the_lock_is_free :
+  forall gs, (forall g, In g gs -> In g status_groups) ->
+  forall s, SInv s -> senabled s gs ->
+  forall pre post, gs = (pre ++ post)%list -> SInv (srun s pre).
+Proof. exact status_consistent_now. Qed.
+Print Assumptions C18_partial_status_fields_consistent_whenever_the_lock_is_free.
+
+(* Status() loads each of the three fields with kvElection.mu held (shared), so a snapshot is taken between two groups *)
+Theorem C18_status_reads_inside_the_lock : loads_ok status_loads = true.
+Proof. exact status_loads_ok. Qed.
+Print Assumptions C18_status_reads_inside_the_lock.
+
+Theorem C18_constructor_establishes_consistency :
+  exists g, In g status_groups /\ sg_ctor g = true /\ forall s, SInv (sstep s g).
+Proof. exact ctor_establishes_now. Qed.
+Print Assumptions C18_constructor_establishes_consistency.
+
+Theorem C18_status_table_nonvacuous :
+  existsb (fun g => match sg_il g with [true] => true | _ => false end) status_groups = true /\
+  existsb (fun g => match sg_il g with [false] => negb (sg_ctor g) | _ => false end) status_groups = true /\
+  (3 <= List.length status_loads)%nat.
+Proof. exact status_table_nontrivial. Qed.
+Print Assumptions C18_status_table_nonvacuous.
 
 Theorem C18_model_state_is_invariant :
   forall tr, admits base0 tr = true -> at_every_position tr (fun b te => Inv b /\ guards b te = []).
